@@ -1,13 +1,255 @@
 (** Property C18 -- MemoryManager discipline and Initialize/Terminate lifecycle are leak-free.
-    Only the property theorems; each is closed by [exact] of a lemma proved in Proofs18*.v. *)
-From Coq Require Import NArith List.
-From XV Require Import C18.Spec18 C18.Model18 C18.Proofs18a.
+    Only the property theorems; each is closed by [exact] of a lemma proved in Proofs18*.v, followed by
+    [Print Assumptions]; Examples show that hypotheses are satisfiable / defects exist (vm_compute).
+
+    CLAIM: PARTIAL.  Proved here: the monitor (T18_monitor_sound_complete), the XMemory header mechanism
+    (T18_xmemory theorems), the DOM arena (T18_arena theorems), the Initialize/Terminate state machine (T18_initterm theorems) and the
+    generated pairing obligations (T18_init_pairing theorems).  NOT proved: that the whole parser (100k lines of
+    exception paths) produces only disciplined traces -- that part of C18 rests on monitored exploration, where
+    the extracted [ledger_check] judges every recorded trace. *)
+From Coq Require Import NArith List Bool String FMapPositive Permutation.
+From XV Require Import Gen.GenC18DomHeap Gen.GenC18Init.
+From XV Require Import C18.Spec18 C18.Model18 C18.Model18X C18.Model18A C18.Model18I.
+From XV Require Import C18.Proofs18a C18.Proofs18b C18.Proofs18c C18.Proofs18d C18.Proofs18e C18.Proofs18f.
 Import ListNotations.
 Local Open Scope N_scope.
 
-(** the extracted monitor decides the discipline of a trace: it answers [V_Ok] exactly for the traces in
-    which every Free matches one earlier, not yet released Alloc of the same manager and nothing is live at
-    the end.  The verdict on a *recorded* trace therefore needs no trust in harness bookkeeping. *)
+(** ---- 1. the monitor ---------------------------------------------------------------------------------- *)
+(** the extracted monitor answers [V_Ok] exactly for the traces in which every Free matches one earlier, not yet
+    released Alloc of the same manager and nothing is live at the end.  The verdict on a *recorded* trace therefore
+    needs no trust in harness bookkeeping. *)
 Theorem T18_monitor_sound_complete : forall tr, ledger_check tr = V_Ok <-> disciplined tr.
 Proof. exact ledger_sound_complete. Qed.
 Print Assumptions T18_monitor_sound_complete.
+
+(** the other verdicts mean what they say: the monitor reports an error iff the trace is not [safe_so_far] (a bad Free or
+    a live address handed out again), an error verdict carries the index of the FIRST event that breaks the discipline,
+    and [V_Outstanding l] lists exactly the blocks whose allocation is the last event on their address *)
+Theorem T18_monitor_no_error_iff : forall tr, ~ is_error (ledger_check tr) <-> safe_so_far tr.
+Proof. exact ledger_no_error_iff. Qed.
+Print Assumptions T18_monitor_no_error_iff.
+
+Theorem T18_monitor_error_index : forall tr, is_error (ledger_check tr) ->
+  exists pre e post i, tr = pre ++ e :: post /\ verdict_index (ledger_check tr) = Some i /\ i = N.of_nat (List.length pre) /\
+                       safe_so_far pre /\ ~ safe_so_far (pre ++ [e]).
+Proof. exact ledger_error. Qed.
+Print Assumptions T18_monitor_error_index.
+
+Theorem T18_monitor_outstanding : forall tr l, ledger_check tr = V_Outstanding l ->
+  safe_so_far tr /\ l <> [] /\ forall p m n, In (p, m, n) l <-> outstanding tr m p n.
+Proof. exact ledger_outstanding. Qed.
+Print Assumptions T18_monitor_outstanding.
+
+Example monitor_accepts : ledger_check [Alloc 1 100 8; Alloc 2 200 16; Free 1 100; Alloc 1 100 4; Free 2 200; Free 1 100] = V_Ok.
+Proof. vm_compute. reflexivity. Qed.
+Example monitor_rejects_wrong_manager : ledger_check [Alloc 1 100 8; Free 2 100] = V_WrongManager 1.
+Proof. vm_compute. reflexivity. Qed.
+Example monitor_rejects_double_free : ledger_check [Alloc 1 100 8; Free 1 100; Free 1 100] = V_DoubleFree 2.
+Proof. vm_compute. reflexivity. Qed.
+Example monitor_rejects_foreign : ledger_check [Alloc 1 100 8; Free 1 104] = V_ForeignFree 1.
+Proof. vm_compute. reflexivity. Qed.
+Example monitor_reports_leak : ledger_check [Alloc 1 100 8; Alloc 1 200 9; Free 1 100] = V_Outstanding [(200, 1, 9)].
+Proof. vm_compute. reflexivity. Qed.
+
+(** ---- 2. XMemory::operator new(size, manager) / operator delete ----------------------------------------- *)
+(** for ANY interleaving of new(size, m_i) / new(size) / delete / change of the global manager that the model
+    accepts (managers return non-overlapping blocks, the client deletes live objects):
+    - once every object is deleted the trace of calls to the managers is disciplined (each block went back to the
+      manager that allocated it, exactly once);
+    - the header word of every live object holds its allocating manager, the payload starts behind it and
+      stays inside the block;
+    - header+payload of distinct live blocks do not overlap. *)
+Theorem T18_xmemory : forall c g ops st, 0 < ptr_size c -> 0 < alignment c -> xrun c (xinit g) ops = Some st ->
+  (x_objs st = [] -> ledger_check (x_trace st) = V_Ok) /\
+  (forall o, In o (x_objs st) -> PositiveMap.find (key (o_base o)) (x_hdr st) = Some (o_mgr o) /\
+                                 o_p o = o_base o + header c /\ ptr_size c <= header c /\ o_p o <= o_base o + o_tot o) /\
+  (forall a b, In a (x_objs st) -> In b (x_objs st) -> a <> b ->
+               overlaps (o_base a) (o_tot a) (o_base b) (o_tot b) = false).
+Proof. exact xmemory_main. Qed.
+Print Assumptions T18_xmemory.
+
+(** every delete hands the block base to the manager of the matching allocation, whatever the global manager is now *)
+Theorem T18_xmemory_owner : forall c g ops st p st', 0 < ptr_size c -> 0 < alignment c ->
+  xrun c (xinit g) ops = Some st -> xdelete c st p = Some st' ->
+  exists o, In o (x_objs st) /\ o_p o = p /\ x_trace st' = x_trace st ++ [Free (o_mgr o) (o_base o)] /\
+            exists pre mid, x_trace st = pre ++ Alloc (o_mgr o) (o_base o) (o_tot o) :: mid /\ untouched (o_base o) mid.
+Proof. exact xdelete_owner. Qed.
+Print Assumptions T18_xmemory_owner.
+
+(** non-vacuity: three managers, the global manager changes between new and delete *)
+Example xmemory_run :
+  option_map (fun st => (x_trace st, List.length (x_objs st)))
+    (xrun xcfg64 (xinit 1) [XNew 2 40 1000; XNewGlobal 16 2000; XSetGlobal 3; XNew 3 7 3000; XDelete 2008; XNewGlobal 1 4000;
+                            XDeleteWith 1008 3; XDelete 3008; XDelete 4008])
+  = Some ([Alloc 2 1000 48; Alloc 1 2000 24; Alloc 3 3000 15; Free 1 2000; Alloc 3 4000 9; Free 2 1000; Free 3 3000; Free 3 4000], 0%nat).
+Proof. vm_compute. reflexivity. Qed.
+
+(** ---- 3. DOM arena: DOMDocumentImpl::allocate / deleteHeap ---------------------------------------------- *)
+(** Code as it is ([fx = false]): under  kMaxSubAllocationSize + header <= kInitialHeapAllocSize  and
+    kMaxHeapAllocSize <= 2^63, for every request sequence in which the manager returns fresh blocks and
+    setMemoryAllocationBlockSize stays out of (maxSub, maxSub+header):  every non-empty region handed out lies
+    inside one block owned by the document (behind its header), regions are pairwise disjoint, and deleteHeap
+    hands back exactly the blocks that were requested (a permutation: each exactly once). *)
+Theorem T18_arena : forall c ops, cfg_base c -> cfg_ok c -> avalid false c (ainit c) ops ->
+  let st := arun false c (ainit c) ops in
+  (forall r, In r (s_regions st) -> snd r = 0 \/ exists blk, In blk (delete_heap st) /\ within (a_hdr c) r blk) /\
+  pdisj (s_regions st) /\
+  Permutation (s_reqs st) (delete_heap st).
+Proof. intros c ops B K V. exact (arena_main false c ops B (or_introl K) V). Qed.
+Print Assumptions T18_arena.
+
+(** repaired allocate ([fx = true], fixes/C18-dom-arena-block-size.patch): no hypothesis on the configuration or on
+    setMemoryAllocationBlockSize *)
+Theorem T18_arena_fixed : forall c ops, cfg_base c -> avalid true c (ainit c) ops ->
+  let st := arun true c (ainit c) ops in
+  (forall r, In r (s_regions st) -> snd r = 0 \/ exists blk, In blk (delete_heap st) /\ within (a_hdr c) r blk) /\
+  pdisj (s_regions st) /\
+  Permutation (s_reqs st) (delete_heap st).
+Proof. intros c ops B V. exact (arena_main true c ops B (or_intror eq_refl) V). Qed.
+Print Assumptions T18_arena_fixed.
+
+(** the configuration compiled into /repo (regenerated on every run) satisfies the hypotheses *)
+Definition repo_cfg : acfg :=
+  {| a_init := kInitialHeapAllocSize; a_max := kMaxHeapAllocSize; a_sub := kMaxSubAllocationSize; a_hdr := header xcfg64; a_al := 8 |}.
+Theorem T18_arena_default_cfg_ok : cfg_base repo_cfg /\ cfg_ok repo_cfg.
+Proof. vm_compute. repeat split; try reflexivity; discriminate. Qed.
+Print Assumptions T18_arena_default_cfg_ok.
+
+(** the arena AS BUILT in /repo: the translator reports whether allocate() sizes a fresh block to fit the request
+    ([arena_block_fits_request], true since fix c3af9bb) and the compiled-in constants; with these the safety statement
+    holds for every request sequence (and, when the flag is true, for every setMemoryAllocationBlockSize). *)
+Theorem T18_arena_as_built : forall ops, avalid arena_block_fits_request repo_cfg (ainit repo_cfg) ops ->
+  let st := arun arena_block_fits_request repo_cfg (ainit repo_cfg) ops in
+  (forall r, In r (s_regions st) -> snd r = 0 \/ exists blk, In blk (delete_heap st) /\ within (a_hdr repo_cfg) r blk) /\
+  pdisj (s_regions st) /\
+  Permutation (s_reqs st) (delete_heap st).
+Proof.
+  intros ops V. apply arena_main; [|left|exact V]; vm_compute; repeat split; try reflexivity; discriminate.
+Qed.
+Print Assumptions T18_arena_as_built.
+
+(** every region handed out is aligned (pointer and length) when the manager returns aligned blocks; the header size is
+    a multiple of the alignment by construction (second statement) *)
+Theorem T18_arena_regions_aligned : forall fx c ops, 0 < a_al c -> a_hdr c mod a_al c = 0 -> bases_aligned c ops ->
+  forall r, In r (s_regions (arun fx c (ainit c) ops)) -> fst r mod a_al c = 0 /\ snd r mod a_al c = 0.
+Proof. exact arena_aligned. Qed.
+Print Assumptions T18_arena_regions_aligned.
+
+Theorem T18_header_aligned : forall c, 0 < alignment c -> header c mod alignment c = 0 /\ ptr_size c <= header c.
+Proof. intros c H. split; [apply align_up_mod; exact H|apply align_up_ge; exact H]. Qed.
+Print Assumptions T18_header_aligned.
+
+(** every region's length is a multiple of the alignment (so sub-allocations stay aligned) *)
+Theorem T18_arena_aligned : forall c, 0 < a_al c -> forall x, (align_up (a_al c) x) mod (a_al c) = 0.
+Proof. exact region_len_aligned. Qed.
+Print Assumptions T18_arena_aligned.
+
+(** F23: Initialize(initialDOMHeapAllocSize, max, maxDOMSubAllocationSize) accepts maxSub > initial.  Then the very
+    first allocate(2000) returns a 2000-byte region in a fresh 1024-byte block: it lies in NO owned block, and
+    fFreeBytesRemaining has wrapped around to 2^64 - 984 (so every later request is "served" past the block too).
+    The request sequence satisfies the environment obligations, only [cfg_ok] fails. *)
+Definition f23_cfg : acfg := {| a_init := 1024; a_max := 4096; a_sub := 2048; a_hdr := 8; a_al := 8 |}.
+Definition not_in_any_block (r : N * N) (hdr : N) (st : astate) : bool :=
+  forallb (fun blk => negb (inside r blk hdr)) (delete_heap st).
+Theorem T18_arena_cfg_refuted :
+  let st := arun false f23_cfg (ainit f23_cfg) [AAlloc 2000 65536] in
+  avalid false f23_cfg (ainit f23_cfg) [AAlloc 2000 65536] /\ cfg_base f23_cfg /\
+  s_reqs st = [(65536, 1024)] /\ s_regions st = [(65544, 2000)] /\
+  not_in_any_block (65544, 2000) 8 st = true /\ (s_fr st =? W - 984) = true.
+Proof.
+  split; [apply avalidb_sound; vm_compute; reflexivity|].
+  split; [vm_compute; repeat split; try reflexivity; discriminate|].
+  repeat split; vm_compute; reflexivity.
+Qed.
+Print Assumptions T18_arena_cfg_refuted.
+
+(** with the DEFAULT parameters of /repo: setMemoryAllocationBlockSize(maxSub+1) then allocate(maxSub) overruns the
+    fresh block of maxSub+1 bytes (finding C18-ARENA-SETBLOCK) *)
+Theorem T18_arena_setblock_refuted :
+  let ops := [ASetBlock (kMaxSubAllocationSize + 1); AAlloc kMaxSubAllocationSize 65536] in
+  let st := arun false repo_cfg (ainit repo_cfg) ops in
+  match s_regions st with
+  | r :: _ => s_reqs st = [(65536, kMaxSubAllocationSize + 1)] /\ not_in_any_block r (a_hdr repo_cfg) st = true
+  | [] => False
+  end.
+Proof. vm_compute. split; reflexivity. Qed.
+Print Assumptions T18_arena_setblock_refuted.
+
+(** the repaired allocate serves both witnesses from blocks that are large enough *)
+Example arena_fixed_witnesses :
+  s_reqs (arun true f23_cfg (ainit f23_cfg) [AAlloc 2000 65536]) = [(65536, 2008)] /\
+  s_reqs (arun true repo_cfg (ainit repo_cfg) [ASetBlock 257; AAlloc 256 65536]) = [(65536, 264)].
+Proof. vm_compute. split; reflexivity. Qed.
+
+(** non-vacuity of T18_arena: a request sequence on the default configuration with sub-allocations, a singleton
+    block, a block change and a legal setMemoryAllocationBlockSize satisfies [avalid] *)
+Example arena_valid_run :
+  avalid false repo_cfg (ainit repo_cfg)
+    [AAlloc 24 1048576; AAlloc 300 2097152; AAlloc 256 0; AAlloc 16000 3145728; AAlloc 100 4194304; ASetBlock 4096; AAlloc 8 0].
+Proof. apply avalidb_sound. vm_compute. reflexivity. Qed.
+
+(** ---- 4. Initialize / Terminate ------------------------------------------------------------------------- *)
+(** [rd] says whether Terminate restores the built-in DOM heap parameters ([Some d]) or not ([None]); the statements
+    below hold for both.  For EVERY sequence of Initialize(args)/Terminate calls from the pristine state:
+    resources are live iff gInitFlag > 0;  gInitFlag is the saturating count of the calls;  whenever the count is
+    back to 0 the manager is gone, the adopted flag is reset and nothing is live;  the only manager ever deleted is
+    the library's own default manager (a user-supplied one never);  own managers created = own managers deleted
+    (+1 while one is installed). *)
+Theorem T18_initterm : forall rd cap d ops, 0 < cap ->
+  let st := irun rd cap (pristine d) ops in
+  (i_live st = true <-> 0 < i_cnt st) /\
+  i_cnt st = fold_left (count_after cap) ops 0 /\
+  (i_cnt st = 0 -> i_mgr st = GmNone /\ i_adopted st = true /\ i_live st = false) /\
+  (forall who, In (EDeleteMgr who) (i_log st) -> who = GmOwn) /\
+  news (i_log st) = (dels (i_log st) + (match i_mgr st with GmOwn => 1 | _ => 0 end))%nat.
+Proof. exact initterm_main. Qed.
+Print Assumptions T18_initterm.
+
+(** an extra Terminate is a no-op *)
+Theorem T18_initterm_extra_terminate : forall rd cap st, i_cnt st = 0 -> istep rd cap st Term = st.
+Proof. exact extra_term_noop. Qed.
+Print Assumptions T18_initterm_extra_terminate.
+
+(** code WITHOUT the reset: after the last matching Terminate the state equals the pristine state (up to the event
+    log) only if no Initialize carried DOM heap arguments ... *)
+Theorem T18_initterm_pristine : forall cap d ops, 0 < cap -> Forall no_dom_args ops ->
+  let st := irun None cap (pristine d) ops in
+  i_cnt st = 0 -> st = {| i_cnt := 0; i_mgr := GmNone; i_adopted := true; i_live := false; i_dom := d; i_log := i_log st |}.
+Proof. exact pristine_again. Qed.
+Print Assumptions T18_initterm_pristine.
+
+(** ... because Terminate does not restore them (finding C18-DOMHEAP-STICKY) *)
+Theorem T18_initterm_domheap_sticky_refuted :
+  let d := (kInitialHeapAllocSize, kMaxHeapAllocSize, kMaxSubAllocationSize) in
+  exists ops, i_cnt (irun None long_max (pristine d) ops) = 0 /\ i_dom (irun None long_max (pristine d) ops) <> d.
+Proof.
+  intros d. exists [Init None (Some (kInitialHeapAllocSize + 1, kMaxHeapAllocSize, kMaxSubAllocationSize)); Term].
+  split; [reflexivity|]. vm_compute. intros E. discriminate E.
+Qed.
+Print Assumptions T18_initterm_domheap_sticky_refuted.
+
+(** code WITH the reset (fixes/C18-domheap-reset-on-terminate.patch): pristine again after the last Terminate for EVERY
+    sequence, whatever arguments the Initialize calls carried *)
+Theorem T18_initterm_pristine_fixed : forall cap d ops, 0 < cap ->
+  let st := irun (Some d) cap (pristine d) ops in
+  i_cnt st = 0 -> st = {| i_cnt := 0; i_mgr := GmNone; i_adopted := true; i_live := false; i_dom := d; i_log := i_log st |}.
+Proof. exact pristine_again_fixed. Qed.
+Print Assumptions T18_initterm_pristine_fixed.
+
+Example initterm_run :
+  let st := irun None long_max (pristine (1, 2, 3)) [Init (Some 7) None; Init None None; Term; Term; Term; Init None None; Term] in
+  (i_cnt st, i_mgr st, i_live st, i_log st) = (0, GmNone, false, [ECreate; EDestroy; ENewOwnMgr; ECreate; EDestroy; EDeleteMgr GmOwn]).
+Proof. vm_compute. reflexivity. Qed.
+
+(** ---- 5. generated obligations (Gen/GenC18Init.v is rewritten from /repo on every run) --------------------- *)
+(** every initializeX() of XMLInitializer::initializeStaticData has its terminateX() in terminateStaticData, in
+    exactly the reverse order *)
+Theorem T18_init_pairing : static_terms = rev static_inits.
+Proof. vm_compute. reflexivity. Qed.
+Print Assumptions T18_init_pairing.
+
+(** every global created with new/makeXxx() in XMLPlatformUtils::Initialize is deleted and reset to 0 in Terminate *)
+Theorem T18_init_globals_released :
+  forallb (fun g => existsb (String.eqb g) globals_deleted && existsb (String.eqb g) globals_zeroed) globals_created = true.
+Proof. vm_compute. reflexivity. Qed.
+Print Assumptions T18_init_globals_released.
